@@ -358,7 +358,7 @@ class BinTableLists(AbstractBinTable):
 
     def _get_row(self, row_idx: int, column_slicer: List[int] or slice = None) -> Row_DType:
         row = self.data[row_idx]
-        if column_slicer:
+        if column_slicer is not None:
             if isinstance(column_slicer, slice):
                 column_slicer = range(*column_slicer.indices(self.width))
             return [row[col] for col in column_slicer]
@@ -702,7 +702,7 @@ class BinTableBitarray(AbstractBinTable):
 
     def _get_row(self, row_idx: int, column_slicer: List[int] or slice = None) -> Row_DType:
         row = self.data[row_idx]
-        if column_slicer:
+        if column_slicer is not None:
             if isinstance(column_slicer, slice):
                 return row[column_slicer]
             return fbarray([row[col_i] for col_i in column_slicer])
